@@ -492,3 +492,32 @@ pub fn fam_c09(thorough: bool) -> Vec<Program> {
 	}
 	out
 }
+
+/// Family F: three threads - a collection over [a, b]; a thread that takes b and then a singly (forcing
+/// two back-offs of a retrying acquisition); and a bystander inside a section of one of the leaves.
+pub fn fam_f(body: Body, thorough: bool) -> Vec<Program> {
+	let mut out = vec![];
+	for policy in POLICIES {
+		for k in KINDS {
+			for rev in [false, true] {
+				for w0 in [true, false] {
+					for first in [0usize, 1] {
+						for by_leaf in [0usize, 1] {
+							for by_w in [true, false] {
+								if policy == Policy::WP && !thorough && k != Kind::Retry {
+									continue;
+								}
+								let specs = vec![Spec::Coll(k, rs(if rev { &[1, 0] } else { &[0, 1] })), Spec::R(0), Spec::R(1)];
+								let t0 = vec![acq(0, w0, Flavour::Guard, body)];
+								let t1 = vec![acq(1 + first, true, Flavour::Guard, Body::NONE), acq(1 + (1 - first), true, Flavour::ScopedLent, Body::NONE)];
+								let t2 = vec![acq(1 + by_leaf, by_w, Flavour::Guard, body)];
+								out.push(Program { specs, threads: vec![t0, t1, t2], policy, name: "F".into(), menu: vec![] });
+							}
+						}
+					}
+				}
+			}
+		}
+	}
+	out
+}
